@@ -899,6 +899,9 @@ func (runInfo *runInfoStruct) runDeleteStmt(stmt *ast.DeleteStmt) {
 		if runInfo.err != nil {
 			return
 		}
+		if runInfo.rv.Kind() == reflect.Interface && !runInfo.rv.IsNil() {
+			runInfo.rv = runInfo.rv.Elem()
+		}
 	}
 
 	if item.Kind() == reflect.Interface && !item.IsNil() {
